@@ -10,8 +10,8 @@
 //	        from rlp.DecodeBytes + rlp.EncodeToBytes of the decoded value;
 //	        split/count: rlp.Split / rlp.CountValues; walk: descent with the
 //	        Stream primitives (Kind/List/ListEnd/Bytes) over a reader that
-//	        holds 16 more bytes than the declared limit; sdec: Stream.Decode
-//	        into interface{} on such a reader; alloc: bytes allocated by all
+//	        holds 16 more bytes than the declared limit; sdec.T: Stream.Decode
+//	        into type T on such a reader (both in "streams"); alloc: bytes allocated by all
 //	        DecodeBytes calls of the event.
 //	Encode: t, val (typed form of the Go value); ok, enc (rlp.EncodeToBytes);
 //	        back (DecodeBytes of enc into a fresh value of the type).
@@ -123,6 +123,12 @@ func kindName(k rlp.Kind) string {
 
 var meter codecutil.AllocMeter
 
+// the Stream paths: a descent with the primitives, and Stream.Decode into
+// several types (untyped, struct, fixed array, nested struct)
+var streamModes = []struct{ name, typ string }{
+	{"walk", "iface"}, {"sdec.iface", "iface"}, {"sdec.S1", "S1"}, {"sdec.au2", "au2"}, {"sdec.Snest", "Snest"},
+}
+
 func decodeEvent(in []byte, src string) map[string]interface{} {
 	type attempt struct {
 		ptr   reflect.Value
@@ -189,9 +195,10 @@ func decodeEvent(in []byte, src string) map[string]interface{} {
 		ev["count"] = cn
 	}
 	// Stream primitives and Stream.Decode over a reader with slack bytes
-	for _, mode := range []string{"walk", "sdec"} {
+	streams := make([]interface{}, 0, len(streamModes))
+	for _, mode := range streamModes {
 		cr := slackReader(in)
-		w := map[string]interface{}{"ok": false, "panic": false, "val": errForm(), "read": 0, "limit": len(in)}
+		w := map[string]interface{}{"n": mode.name, "t": mode.typ, "ok": false, "panic": false, "val": errForm(), "read": 0}
 		var f form
 		var err error
 		p, _ := codecutil.Try(func() {
@@ -201,13 +208,13 @@ func decodeEvent(in []byte, src string) map[string]interface{} {
 				cr.b = cr.b[:0]
 			}
 			s := rlp.NewStream(cr, uint64(len(in)))
-			if mode == "walk" {
+			if mode.name == "walk" {
 				f, err = walk(s, 0)
 			} else {
-				var x interface{}
-				err = s.Decode(&x)
+				ptr := reflect.New(catalogue[mode.typ])
+				err = s.Decode(ptr.Interface())
 				if err == nil {
-					f = formOf(reflect.ValueOf(&x).Elem())
+					f = formOf(ptr.Elem())
 				}
 			}
 		})
@@ -217,8 +224,9 @@ func decodeEvent(in []byte, src string) map[string]interface{} {
 			w["ok"] = true
 			w["val"] = f
 		}
-		ev[mode] = w
+		streams = append(streams, w)
 	}
+	ev["streams"] = streams
 	return ev
 }
 
@@ -347,8 +355,14 @@ func main() {
 			if !ok {
 				vutil.Fatalf("unknown type %q in case", c.T)
 			}
-			tr.Emit(encodeEvent(c.T, build(t, c.V), "tlc"))
+			ev := encodeEvent(c.T, build(t, c.V), "tlc")
+			tr.Emit(ev)
 			nEnc++
+			// the real encoding is also offered to every decoder
+			if enc, ok := ev["enc"].([]int); ok && len(enc) > 0 && len(enc) <= 1200 {
+				tr.Emit(decodeEvent(codecutil.FromInts(enc), "tlc-enc"))
+				nDec++
+			}
 		default:
 			vutil.Fatalf("unknown case op %q", c.Op)
 		}
